@@ -20,7 +20,7 @@ NMAX = {"quick": 4, "thorough": 5}
 
 META = dict(
     rule="for every (test, relation) of the statement: every series of length 0..N over the test's dyadic alphabet x 1-3 "
-         "parameter sets is executed, then re-executed under every transformation: value offsets {+8,-2.5}, negation, "
+         "parameter sets is executed, then re-executed under every transformation: value offsets {+8,-2.5}, negation (also with the series carried by a masked array whose masked slots keep a fixed finite payload), "
          "time shifts {+1s,+0.5s,+1d,-60y (pre-1970)} (climatology / time-valued valid_range with their absolute spans "
          "shifted too), joint data+span shifts (gross/valid range), reversal (spike) - flags must be identical (reversed "
          "for reversal); and under EVERY single-point perturbation (each position x each other symbol incl. missing) - "
@@ -110,6 +110,10 @@ def run(name, cfg, lg):
             fn, kw, _ = G.build(name, c, list(range(n)), "nd", secs=[0] * n, lon=lg["lon"], lat=lg["lat"])
         else:
             fn, kw, _ = G.build(name, c, lg["x"], "nd", z=lg.get("z"), secs=[0] * len(lg["x"]))
+            if lg.get("carrier") == "ma":
+                # masked array whose masked slots keep the SAME finite payload whatever the transformation
+                miss = [v in (NAN, None) for v in lg["x"]]
+                kw["inp"] = np.ma.MaskedArray(np.array([999.0 if m else float(v) for v, m in zip(lg["x"], miss)]), mask=miss)
         if "tinp" in kw:
             kw["tinp"] = dt64f(lg["secs"])
         out = alpha.call(fn, **kw)
@@ -283,8 +287,13 @@ def run_task(task, acc):
         series = ([spec["al"][first], *rest] for k in range(1, n + 1) for rest in itertools.product(spec["al"], repeat=k - 1))
         cfgs = [spec["cfgs"][ci]]
     for x in series:
-      for step in ((None, 1.5, 2.25) if name == "rate_of_change_test" else (None,)):
+      variants_ = [(None, None)] + ([(1.5, None), (2.25, None)] if name == "rate_of_change_test" else [])
+      if "voff" in spec["rel"] and any(v == NAN for v in x) and len(x) <= 4:
+          variants_.append((None, "ma"))
+      for step, carrier in variants_:
         lg = logical(name, list(x), step)
+        if carrier:
+            lg["carrier"] = carrier
         for cfg in cfgs:
             found, nexec, skipped, results = check_series(name, cfg, lg)
             acc.visit(cid(dict(fn=name, cfg=cfg, base=lg)), False, None, edges=nexec - 1, evals=nexec,
